@@ -351,6 +351,7 @@ func runC06(p *Program, r *Report) {
 	c06closed(p, r, "C06.closed")
 	c06once(p, r, "C06.once")
 	c06wait(p, r, "C06.wait")
+	cReasons(p, r, "C06.reasons")
 	c03ctl(p, r, "C06.recv")
 	c03closepayload(p, r, "C06.parse")
 }
@@ -571,6 +572,292 @@ func parseVerbs(f string) []string {
 		}
 	}
 	return out
+}
+
+// cReasons: every Close frame the library sends on its own (protocol errors, read limit, wrong message
+// type, bad JSON, CloseRead policy) carries a reason that cannot exceed the 123-byte limit — otherwise
+// CloseError.bytes fails and *no* Close frame is sent at all. A reason is bounded when it is a constant
+// or the text of fmt.Errorf/errors.New with a constant format whose operands are numbers, booleans,
+// small named integer types, or errors produced the same way by a library function.
+func cReasons(p *Program, r *Report, rule string) {
+	boundedType := func(t types.Type) bool {
+		if b, ok := t.Underlying().(*types.Basic); ok {
+			return b.Info()&(types.IsInteger|types.IsBoolean|types.IsFloat) != 0
+		}
+		return false
+	}
+	var errBounded func(v ssa.Value, depth int) (bool, string)
+	// operands of an Errorf call
+	operandsOf := func(call *ssa.Call) []ssa.Value {
+		var ops []ssa.Value
+		args := call.Call.Args
+		if len(args) < 2 {
+			return nil
+		}
+		if sl, ok := args[len(args)-1].(*ssa.Slice); ok {
+			if al, ok := sl.X.(*ssa.Alloc); ok {
+				for _, ref := range *al.Referrers() {
+					if ia, ok := ref.(*ssa.IndexAddr); ok {
+						for _, r2 := range *ia.Referrers() {
+							if st, ok := r2.(*ssa.Store); ok {
+								ops = append(ops, st.Val)
+							}
+						}
+					}
+				}
+			}
+		}
+		return ops
+	}
+	errBounded = func(v ssa.Value, depth int) (bool, string) {
+		if depth > 4 {
+			return false, "too deep"
+		}
+		switch x := v.(type) {
+		case *ssa.Call:
+			_, name := p.calleeOf(&x.Call)
+			switch name {
+			case "errors.New":
+				if _, ok := x.Call.Args[0].(*ssa.Const); ok {
+					return true, "errors.New(const)"
+				}
+				return false, "errors.New of a non-constant"
+			case "fmt.Errorf":
+				if _, ok := x.Call.Args[0].(*ssa.Const); !ok {
+					return false, "non-constant format"
+				}
+				for _, o := range operandsOf(x) {
+					t := o.Type()
+					inner := o
+					switch mi := o.(type) {
+					case *ssa.MakeInterface:
+						t, inner = mi.X.Type(), mi.X
+					case *ssa.ChangeInterface:
+						t, inner = mi.X.Type(), mi.X
+					}
+					if boundedType(t) {
+						continue
+					}
+					if types.Implements(t, types.Universe.Lookup("error").Type().Underlying().(*types.Interface)) {
+						if ok, why := errBounded(inner, depth+1); ok {
+							continue
+						} else {
+							return false, "error operand: " + why
+						}
+					}
+					// the one frozen exception: parseClosePayload quotes a payload it has just found shorter than 2 bytes
+					if p.FuncName(x.Parent()) == "parseClosePayload" {
+						continue
+					}
+					return false, "operand of unbounded type " + t.String() + " in " + p.FuncName(x.Parent())
+				}
+				return true, "fmt.Errorf(const, bounded operands)"
+			}
+			// error returned by a library function: all its error returns must be bounded
+			if callee, ok := x.Call.Value.(*ssa.Function); ok && p.isLib(callee) {
+				for _, b := range callee.Blocks {
+					for _, in := range b.Instrs {
+						if ret, ok := in.(*ssa.Return); ok && len(ret.Results) > 0 {
+							last := ret.Results[len(ret.Results)-1]
+							if c, isC := last.(*ssa.Const); isC && c.Value == nil {
+								continue
+							}
+							if ok, why := errBounded(last, depth+1); !ok {
+								return false, p.FuncName(callee) + ": " + why
+							}
+						}
+					}
+				}
+				return true, "errors of " + p.FuncName(callee)
+			}
+			return false, "result of " + name
+		case *ssa.Extract:
+			return errBounded(x.Tuple, depth)
+		case *ssa.Phi:
+			for _, e := range x.Edges {
+				if ok, why := errBounded(e, depth+1); !ok {
+					return false, why
+				}
+			}
+			return true, "phi"
+		case *ssa.Parameter:
+			// parameter err of Conn.writeError: check all callers
+			fn := x.Parent()
+			idx := -1
+			for i, prm := range fn.Params {
+				if prm == x {
+					idx = i
+				}
+			}
+			for _, cs := range p.CallersOf(fn) {
+				if ok, why := errBounded(cs.Instr.Common().Args[idx], depth+1); !ok {
+					return false, p.FuncName(cs.Fn) + ": " + why
+				}
+			}
+			return true, "all callers"
+		case *ssa.UnOp:
+			if al, ok := x.X.(*ssa.Alloc); ok {
+				for _, ref := range *al.Referrers() {
+					if st, ok := ref.(*ssa.Store); ok && st.Addr == al {
+						if ok, why := errBounded(st.Val, depth+1); !ok {
+							return false, why
+						}
+					}
+				}
+				return true, "local"
+			}
+		case *ssa.MakeInterface:
+			return errBounded(x.X, depth)
+		}
+		return false, "unrecognised error value " + v.String()
+	}
+	errT := types.Universe.Lookup("error").Type().Underlying().(*types.Interface)
+	// path-sensitive part: the abstract value of the error whose text becomes the reason
+	var avBounded func(pa *Path, a AV) (bool, string)
+	avBounded = func(pa *Path, a AV) (bool, string) {
+		e, ok := a.(*Expr)
+		if !ok || e.Op != "call" {
+			return false, "reason derives from " + a.Key()
+		}
+		switch {
+		case strings.HasPrefix(e.Name, "errors.New@"):
+			if _, isC := e.Args[0].(*Const); isC {
+				return true, "errors.New(const)"
+			}
+			return false, "errors.New of a non-constant"
+		case strings.HasPrefix(e.Name, "fmt.Errorf@"):
+			if _, isC := e.Args[0].(*Const); !isC {
+				return false, "non-constant format"
+			}
+			var ev *Event
+			for _, x := range pa.Events {
+				if x.Kind == "call" && x.Res != nil && x.Res.Key() == e.Key() {
+					ev = x
+				}
+			}
+			if ev == nil {
+				return false, "Errorf event not found"
+			}
+			for _, o := range varargsOf(pa, ev) {
+				if _, isC := o.(*Const); isC {
+					continue
+				}
+				var t types.Type
+				if oe, ok := o.(*Expr); ok {
+					t = oe.T
+				}
+				if t != nil && boundedType(t) {
+					continue
+				}
+				if oe, ok := o.(*Expr); ok && (oe.Op == "call" || oe.Op == "extract") && t != nil && types.Implements(t, errT) {
+					// an error produced by a library function or another Errorf
+					base := oe
+					if oe.Op == "extract" {
+						base, _ = oe.Args[0].(*Expr)
+					}
+					if base != nil && (strings.HasPrefix(base.Name, "fmt.Errorf@") || strings.HasPrefix(base.Name, "errors.New@")) {
+						if ok, why := avBounded(pa, base); ok {
+							continue
+						} else {
+							return false, why
+						}
+					}
+					if base != nil {
+						name := base.Name
+						if i := strings.Index(name, "@"); i >= 0 {
+							name = name[:i]
+						}
+						if fn := p.FuncOpt(name); fn != nil {
+							okAll, why := true, ""
+							for _, b := range fn.Blocks {
+								for _, in := range b.Instrs {
+									if ret, ok := in.(*ssa.Return); ok && len(ret.Results) > 0 {
+										last := ret.Results[len(ret.Results)-1]
+										if c, isC := last.(*ssa.Const); isC && c.Value == nil {
+											continue
+										}
+										if !types.Implements(last.Type(), errT) {
+											continue
+										}
+										if ok, w := errBounded(last, 1); !ok {
+											okAll, why = false, name+": "+w
+										}
+									}
+								}
+							}
+							if okAll {
+								continue
+							}
+							return false, "error operand " + why
+						}
+					}
+				}
+				ts := "?"
+				if t != nil {
+					ts = t.String()
+				}
+				return false, "operand " + o.Key() + " of unbounded type " + ts
+			}
+			return true, "fmt.Errorf(const format, bounded operands)"
+		}
+		return false, "reason derives from " + e.Name
+	}
+	// functions that contain a library-initiated close
+	type site struct{ callee string }
+	fns := map[*ssa.Function]bool{}
+	for _, cs := range p.CallSites() {
+		fname := p.FuncName(cs.Fn)
+		switch cs.Name {
+		case "Conn.writeError":
+			fns[cs.Fn] = true
+		case "Conn.Close", "Conn.closeHandshake":
+			if fname != "Conn.Close" && fname != "Conn.closeHandshake" && fname != "netConn.Close" {
+				fns[cs.Fn] = true
+			}
+		}
+	}
+	n := 0
+	for fn := range fns {
+		if p.FuncName(fn) == "Conn.writeError" {
+			continue
+		}
+		n++
+		p.forAllPaths(r, rule, fn, "library-initiated close reasons are bounded", Opts{Unroll: 1},
+			"a Close the library initiates on its own (protocol error, read limit, wrong message type, bad JSON, policy violation) carries a reason of at most 123 bytes by construction — a constant, or the text of an error with a constant format and numeric/boolean/bounded-error operands; a longer reason makes CloseError.bytes fail and no Close frame is sent at all",
+			func(pa *Path) (bool, string) {
+				for _, e := range pa.Events {
+					if e.Kind != "call" {
+						continue
+					}
+					switch e.Callee {
+					case "Conn.writeError":
+						if ok, why := avBounded(pa, e.Args[2]); !ok {
+							return false, "writeError reason: " + why
+						}
+					case "Conn.Close", "Conn.closeHandshake":
+						reason := e.Args[2]
+						if s, ok := avStr(reason); ok {
+							if len(s) > 123 {
+								return false, "constant reason longer than 123 bytes"
+							}
+							continue
+						}
+						re, ok := reason.(*Expr)
+						if !ok || re.Op != "call" || !strings.HasPrefix(re.Name, "invoke error.Error@") {
+							return false, e.Callee + " reason is " + reason.Key()
+						}
+						if ok, why := avBounded(pa, re.Args[0]); !ok {
+							return false, e.Callee + " reason: " + why
+						}
+					}
+				}
+				return true, ""
+			})
+	}
+	if n < 5 {
+		r.Undecide("%s: only %d functions with library-initiated closes found", rule, n)
+	}
+	_ = site{}
 }
 
 // c06wait: waitCloseHandshake stays in frame sync: it first discards exactly the unread rest of the
